@@ -34,7 +34,7 @@ func init() {
 		"DESIGN.md §5 C01, §4.3",
 		[]string{"fidelity of deepClone (a YAML round trip) on exotic strings", "type-sensitive == across formats (C04)", "chains of 3-4 layers beyond the induction (repeated application of the same entry)"},
 		[]string{"Trees are acyclic and layer sources are private copies (rules C02.indep / C08.acyclic)."},
-		ruleC01Kind, ruleC01Map, ruleC01List, ruleC01Match, ruleDeepClone)
+		ruleC01Kind, ruleC01Map, ruleC01List, ruleC01Match, ruleDeepClone, ruleMarkerHelpers("C01.marker"))
 
 	mk("C02", "Stream layering targets the right documents and treats each independently",
 		"path-effect summaries of MergeDocument (target selection table), ownership analysis of every call into the merge family (sources must be private deep copies), census of the writers of Parser.docs / Document.Parents",
@@ -50,7 +50,7 @@ func init() {
 		"DESIGN.md §5 C03",
 		[]string{"file-system behaviour of os.Stat / Glob / EvalSymlinks", "independence of the result from layer names", "the arithmetic of the filename rule beyond 'drops exactly one component'"},
 		nil,
-		ruleC03, ruleC03Strip, ruleBklMainInputs)
+		ruleC03, ruleC03Strip, ruleBklMainInputs, ruleFilepath("C03.path"))
 
 	mk("C04", "Results do not depend on which format (JSON/YAML/TOML) a layer is written in",
 		"census of the dynamic types boxed into `any` by normalisation and evaluation, coverage of decoder-specific numeric types by normalize, must-pass-through (every decoded document goes to normalize and nowhere else), constant arguments of strconv.ParseFloat",
@@ -66,7 +66,7 @@ func init() {
 		"DESIGN.md §5 C05",
 		[]string{"decode(encode(x)) = x for look-alike strings, doubles, empty containers (third-party codecs)", "agreement with independent parsers"},
 		nil,
-		ruleC05Table, ruleC05Sep, ruleC05All, ruleBklMainFormat, ruleTypedNil("C05.typednil"))
+		ruleC05Table, ruleC05Sep, ruleC05All, ruleBklMainFormat, ruleTypedNil("C05.typednil"), ruleFilepath("C05.path"))
 
 	mk("C06", "Plain data passes through unchanged; $$ escapes any literal dollar",
 		"interprocedural may-be-nil analysis of every map/slice boxed into a tree value (an empty map or list is never replaced by a typed nil); path-effect summaries of finalizeOutput, validate, outputDocument and the process1 family; census of every $-literal used to recognise directives; call-graph check that the unescape is applied exactly once",
@@ -82,7 +82,7 @@ func init() {
 		"DESIGN.md §5 C07",
 		[]string{"whether an empty upper list 'actually overrides' a $required list entry (the list marker is shown to be removed only by a child list; the map-valued marker follows the ordinary merge table, C01)"},
 		nil,
-		ruleOutputGate("C07"), ruleValidate("C07"), ruleMarshalRoute, ruleC07Encode("C07.encode"), ruleC07Required)
+		ruleOutputGate("C07"), ruleValidate("C07"), ruleMarshalRoute, ruleC07Encode("C07.encode"), ruleC07Required, ruleStripMarker("C07.strip"))
 
 	mk("C08", "Every invocation terminates with complete output or a reported error",
 		"panic-site audit over SSA (unchecked type assertions, compiler-unproven bounds checks matched to discharge patterns, explicit panics, division, nil-map writes), per-call-site classification of every cycle of a closure-aware call graph (depth-guarded / visited-guarded / structural on acyclic data), dropped-error audit, path summaries of the mains (failed step => stderr + non-zero exit, stdout written last)",
@@ -114,7 +114,7 @@ func init() {
 		"DESIGN.md §5 C11",
 		[]string{"interaction with references copied out of hidden trees"},
 		nil,
-		ruleC11Select, ruleC11Hide, ruleOutputGate("C11"))
+		ruleC11Select, ruleC11Hide, ruleOutputGate("C11"), ruleMarkerHelpers("C11.marker"))
 
 	mk("C12", "$repeat expands to exactly n indexed copies (cartesian product for named counts)",
 		"induction-variable analysis of the three counted loops (0 <= i < n, step 1, i bound on a per-iteration clone of the context), lockstep analysis of the documents/contexts slices, path-effect summaries of repeatDoc*, process2RepeatObj*",
@@ -130,7 +130,7 @@ func init() {
 		"DESIGN.md §5 C13",
 		[]string{"%v formatting of non-string values", "literal } and : inside templates"},
 		nil,
-		ruleC13, ruleC13Vars)
+		ruleC13, ruleC13Vars, ruleC12Loops)
 
 	mk("C14", "$encode produces the named standard encodings and $decode inverts them",
 		"path-effect summaries of process2EncodeString per transform branch (callee and operand of the standard-library implementation), sibling cross-check of argument-count guards, left-to-right fold of process2EncodeAny, $decode type table and must-pass-through normalize",
@@ -162,7 +162,7 @@ func init() {
 		"DESIGN.md §5 C17",
 		[]string{"nothing further: idempotence follows from the table"},
 		nil,
-		ruleC17Table, ruleMarkerVocabulary("C17.marker", map[string][]string{"cmd/bklr": {"$required"}}), ruleValidate("C17"))
+		ruleC17Table, ruleMarkerVocabulary("C17.marker", map[string][]string{"cmd/bklr": {"$required"}}), ruleValidate("C17"), ruleStripMarker("C17.strip"))
 
 	mk("C18", "With a root directory set, nothing outside it is ever read",
 		"who-may-call census of file-content APIs (only (*os.Root).Open on the parser's root and stdin), frozen list of metadata probes, writer census and path summary of SetRoot (roots only narrow), data-flow of the path handed to root.Open, dominance of SetRoot over loading in cmd/bkl.main",
@@ -186,5 +186,5 @@ func init() {
 		"DESIGN.md §5 C20",
 		[]string{"what the exec'd program observes (OS)"},
 		nil,
-		ruleC20)
+		ruleC20, ruleFilepath("C20.path"))
 }
